@@ -186,7 +186,7 @@ var c02CodeDefects = map[string][]string{
 	"subject":    {"signer_not_subject", "foreign_cred_in_vp", "mixed_subjects", "mixed_subjects_via_empty_vp"},
 	"definition": {"foreign_definition", "unfulfilled", "forged_map"},
 	"verify":     {"bad_vp_sig", "bad_vc_sig", "cred_revoked", "cred_expired"},
-	"token":      {"code_wrong", "code_reused", "token_client_id_wrong", "verifier_wrong", "verifier_missing", "state_wrong"},
+	"token":      {"code_wrong", "code_reused", "token_client_id_wrong", "verifier_wrong", "verifier_missing", "state_wrong", "code_path_variant", "code_instead_of_presentation"},
 }
 
 func c02GroupNames(m map[string][]string) []string {
@@ -312,7 +312,7 @@ func c02Gen(t *rapid.T) c02Case {
 	nh := rapid.IntRange(1, 6).Draw(t, "nhist")
 	for i := 0; i < nh; i++ {
 		op := rapid.SampledFrom([]string{"introspect", "introspect", "introspect_ext", "garbage", "age", "age", "replay", "second"}).Draw(t, "op")
-		c.History = append(c.History, c02Op{Op: op, Arg: rapid.IntRange(0, 5).Draw(t, "oparg")})
+		c.History = append(c.History, c02Op{Op: op, Arg: rapid.IntRange(0, 11).Draw(t, "oparg")})
 	}
 	return c
 }
